@@ -199,3 +199,16 @@ Example C05_random_eot_skip_example :
   /\ option_map tlid (current w') = Some 4 /\ pstate w' = Playing /\ map tlid (shuffled w') = [5; 6].
 Proof. vm_compute. repeat split; reflexivity. Qed.
 Print Assumptions C05_random_eot_skip_example.
+
+(* under consume (sequential order) the refused entry that _mark_unplayable drops from the
+   tracklist is forgotten as current entry in the same step (it is never "reported as current
+   afterwards"), the removal is announced, every other entry stays *)
+Theorem C05_consume_dropped_entry_not_current :
+  forall shuf u x w,
+  consume w = true -> random w = false -> current w = Some u ->
+  NoDup (map tlid (World.tl w)) -> In x (World.tl w) -> tlid x <> tlid u ->
+  let w' := snd (mark_unplayable shuf (Some u) w) in
+  current w' = None /\ mem_tlt u (World.tl w') = false /\ In x (World.tl w')
+  /\ version w' = version w + 1 /\ events w' = EvTracklistChanged :: events w.
+Proof. exact consume_dropped_not_current. Qed.
+Print Assumptions C05_consume_dropped_entry_not_current.
